@@ -51,18 +51,18 @@ func rulesC02(c *Ctx) {
 			st := p.StateAt(fn, w.Node)
 			allocT := T(paramIdent(fn, 0), st)
 			fits := p.Holds(st, p.CallAtom(true, func(call *ast.CallExpr, a Atom) bool {
-				return p.isRecvExpr(fn, Recv(call)) && len(call.Args) == 1 && p.Same(a.term(call.Args[0]), allocT)
+				return p.isRecvExpr(fn, Recv(call)) && len(call.Args) >= 1 && p.Same(a.term(call.Args[0]), allocT)
 			}, "objects.Queue.allocatedResFits"))
 			c.Check("C02.b", "own maximum re-checked before commit", w.Node, fits, "allocatedResource is updated without allocatedResFits(alloc) == true on this queue; facts: %v", p.FactStrings(st))
 			parent := p.Holds(st, anyReq(
 				p.NilAtom(true, func(t Term) bool { return p.recvField(fn, t.E, "objects.Queue.parent") }),
 				p.ResultNilAtom(true, func(call *ast.CallExpr, a Atom) bool {
-					return p.recvField(fn, Recv(call), "objects.Queue.parent") && len(call.Args) == 1 && p.Same(a.term(call.Args[0]), allocT)
+					return p.recvField(fn, Recv(call), "objects.Queue.parent") && len(call.Args) >= 1 && p.Same(a.term(call.Args[0]), allocT)
 				}, "objects.Queue.TryIncAllocatedResource")))
 			c.Check("C02.b", "direct parent re-checked before commit", w.Node, parent, "allocatedResource is updated without (parent == nil || parent.TryIncAllocatedResource(alloc) == nil) on the direct parent; facts: %v", p.FactStrings(st))
 			// the committed value is allocated + alloc
 			okVal := false
-			if call, ok := unparen(w.Arg).(*ast.CallExpr); ok && p.IsCall(call, "resources.Add") && len(call.Args) == 2 {
+			if call, ok := unparen(w.Arg).(*ast.CallExpr); ok && p.IsCall(call, "resources.Add") && len(call.Args) >= 2 {
 				okVal = p.recvField(fn, call.Args[0], "objects.Queue.allocatedResource") && p.Same(T(call.Args[1], st), allocT)
 			}
 			c.Check("C02.b", "committed value is allocated+alloc", w.Node, okVal, "TryIncAllocatedResource commits %s instead of Add(allocatedResource, alloc)", p.Src(w.Arg))
@@ -81,10 +81,10 @@ func rulesC02(c *Ctx) {
 			call, isCall := unparen(rs.Results[0]).(*ast.CallExpr)
 			shape := false
 			isFitIn := false
-			if isCall && len(call.Args) == 1 && p.recvField(fn, Recv(call), "objects.Queue.maxResource") {
+			if isCall && len(call.Args) >= 1 && p.recvField(fn, Recv(call), "objects.Queue.maxResource") {
 				isFitIn = p.IsCall(call, "resources.Resource.FitIn")
 				if isFitIn || p.IsCall(call, "resources.Resource.FitInMaxUndef") {
-					if inner, ok := unparen(call.Args[0]).(*ast.CallExpr); ok && p.IsCall(inner, "resources.AddOnlyExisting") && len(inner.Args) == 2 {
+					if inner, ok := unparen(call.Args[0]).(*ast.CallExpr); ok && p.IsCall(inner, "resources.AddOnlyExisting") && len(inner.Args) >= 2 {
 						shape = p.isParam(fn, inner.Args[0], 0) && p.recvField(fn, inner.Args[1], "objects.Queue.allocatedResource")
 					}
 				}
@@ -113,7 +113,7 @@ func rulesC02(c *Ctx) {
 		isTryInc := func(st *State) func(call *ast.CallExpr, a Atom) bool {
 			askT := T(paramIdent(fn, 1), st)
 			return func(call *ast.CallExpr, a Atom) bool {
-				return p.recvField(fn, Recv(call), "objects.Application.queue") && len(call.Args) == 1 && p.IsResOf(a.term(call.Args[0]), askT)
+				return p.recvField(fn, Recv(call), "objects.Application.queue") && len(call.Args) >= 1 && p.IsResOf(a.term(call.Args[0]), askT)
 			}
 		}
 		n := 0
@@ -123,7 +123,7 @@ func rulesC02(c *Ctx) {
 			ok := p.Holds(st, p.ResultNilAtom(true, isTryInc(st), "objects.Queue.TryIncAllocatedResource"))
 			c.Check("C02.c", "commit "+shortFn(p.CalleeName(call))+" after queue success", call, ok, "%s executes without queue.TryIncAllocatedResource(res(ask)) == nil; facts: %v", p.CalleeName(call), p.FactStrings(st))
 			ok2 := p.Holds(st, p.CallAtom(true, func(cl *ast.CallExpr, a Atom) bool {
-				return p.isParam(fn, Recv(cl), 0) && len(cl.Args) == 1 && p.isParam(fn, cl.Args[0], 1)
+				return p.isParam(fn, Recv(cl), 0) && len(cl.Args) >= 1 && p.isParam(fn, cl.Args[0], 1)
 			}, "objects.Node.TryAddAllocation"))
 			c.Check("C02.c", "commit "+shortFn(p.CalleeName(call))+" after node success", call, ok2, "%s executes without node.TryAddAllocation(ask) == true", p.CalleeName(call))
 		}
@@ -137,7 +137,7 @@ func rulesC02(c *Ctx) {
 			nr++
 			askT := T(paramIdent(fn, 1), st)
 			rev := p.DoneCall(st, func(cl *ast.CallExpr) bool {
-				return p.isParam(fn, Recv(cl), 0) && len(cl.Args) == 1 && p.IsKeyOf(T(cl.Args[0], p.StateAt(fn, cl)), askT)
+				return p.isParam(fn, Recv(cl), 0) && len(cl.Args) >= 1 && p.IsKeyOf(T(cl.Args[0], p.StateAt(fn, cl)), askT)
 			}, "objects.Node.RemoveAllocation")
 			c.Check("C02.c", "node reverted when the queue refuses", ex.Node, rev != nil, "return on the queue-failure branch without node.RemoveAllocation(key(ask))")
 			if rs, ok := ex.Node.(*ast.ReturnStmt); ok && len(rs.Results) > 0 {
@@ -155,7 +155,7 @@ func rulesC02(c *Ctx) {
 			st := p.StateAt(fn, call)
 			reqT := T(call.Args[0], st)
 			ok := p.Holds(st, p.CallAtom(true, func(cl *ast.CallExpr, a Atom) bool {
-				return p.isParam(fn, Recv(cl), 0) && len(cl.Args) == 1 && p.IsResOf(a.term(cl.Args[0]), reqT)
+				return p.isParam(fn, Recv(cl), 0) && len(cl.Args) >= 1 && p.IsResOf(a.term(cl.Args[0]), reqT)
 			}, "resources.Resource.FitInMaxUndef"))
 			c.Check("C02.d", "queue headroom before "+shortFn(p.CalleeName(call)), call, ok, "%s reached without headRoom.FitInMaxUndef(res(request)); facts: %v", p.CalleeName(call), p.FactStrings(st))
 		}
@@ -173,7 +173,7 @@ func rulesC02(c *Ctx) {
 			askT := T(askArg, st)
 			// checkHeadRooms(...) == true implies the FitInMaxUndef tests it is made of, with its parameters bound to the arguments
 			ok := p.Holds(st, p.CallAtom(true, func(cl *ast.CallExpr, a Atom) bool {
-				return Recv(cl) != nil && p.isParamTerm(fn, a.term(Recv(cl)), 0) && len(cl.Args) == 1 && p.IsResOf(a.term(cl.Args[0]), askT)
+				return Recv(cl) != nil && p.isParamTerm(fn, a.term(Recv(cl)), 0) && len(cl.Args) >= 1 && p.IsResOf(a.term(cl.Args[0]), askT)
 			}, "resources.Resource.FitInMaxUndef"))
 			c.Check("C02.d", "headrooms before "+shortFn(p.CalleeName(call))+" (reserved)", call, ok, "%s reached without checkHeadRooms(ask, userHeadroom, headRoom); facts: %v", p.CalleeName(call), p.FactStrings(st))
 		}
@@ -199,7 +199,7 @@ func rulesC02(c *Ctx) {
 			}
 			for _, side := range []ast.Expr{b.X, b.Y} {
 				cl, isC := unparen(side).(*ast.CallExpr)
-				if isC && askIdx >= 0 && p.IsCall(cl, "resources.Resource.FitInMaxUndef") && len(cl.Args) == 1 && p.IsResOf(T(cl.Args[0], ex.State), T(paramIdent(fn, askIdx), ex.State)) {
+				if isC && askIdx >= 0 && p.IsCall(cl, "resources.Resource.FitInMaxUndef") && len(cl.Args) >= 1 && p.IsResOf(T(cl.Args[0], ex.State), T(paramIdent(fn, askIdx), ex.State)) {
 					for i := 0; i < 3; i++ {
 						if i != askIdx && p.isParam(fn, Recv(cl), i) {
 							seen[i] = true
@@ -253,7 +253,7 @@ func rulesC02(c *Ctx) {
 		ret := false
 		for _, ex := range p.returnsOf(fn) {
 			if rs, ok := ex.Node.(*ast.ReturnStmt); ok && len(rs.Results) == 1 {
-				if cl, ok := unparen(rs.Results[0]).(*ast.CallExpr); ok && p.IsCall(cl, "objects.Queue.internalHeadRoom") && p.isRecvExpr(fn, Recv(cl)) && len(cl.Args) == 1 {
+				if cl, ok := unparen(rs.Results[0]).(*ast.CallExpr); ok && p.IsCall(cl, "objects.Queue.internalHeadRoom") && p.isRecvExpr(fn, Recv(cl)) && len(cl.Args) >= 1 {
 					// argument must be the variable assigned from the parent's headroom
 					if id, ok := unparen(cl.Args[0]).(*ast.Ident); ok {
 						for _, pc := range p.callsIn(fn, "objects.Queue.getHeadRoom") {
@@ -272,7 +272,7 @@ func rulesC02(c *Ctx) {
 	if fn := c.MustFunc("C02.d", "objects.Queue.internalHeadRoom"); fn != nil {
 		subOK := false
 		for _, call := range p.callsIn(fn, "resources.SubOnlyExisting") {
-			if len(call.Args) == 2 && p.resolvesToRecvField(fn, call.Args[0], call, "objects.Queue.maxResource") && p.recvField(fn, call.Args[1], "objects.Queue.allocatedResource") {
+			if len(call.Args) >= 2 && p.resolvesToRecvField(fn, call.Args[0], call, "objects.Queue.maxResource") && p.recvField(fn, call.Args[1], "objects.Queue.allocatedResource") {
 				subOK = true
 			}
 		}
@@ -284,7 +284,7 @@ func rulesC02(c *Ctx) {
 				continue
 			}
 			r := unparen(rs.Results[0])
-			if cl, ok := r.(*ast.CallExpr); ok && p.IsCall(cl, "resources.ComponentWiseMin") && len(cl.Args) == 2 {
+			if cl, ok := r.(*ast.CallExpr); ok && p.IsCall(cl, "resources.ComponentWiseMin") && len(cl.Args) >= 2 {
 				if p.isParam(fn, cl.Args[1], 0) || p.isParam(fn, cl.Args[0], 0) {
 					minOK = true
 				}
